@@ -132,3 +132,48 @@ func TestWriteFindings(t *testing.T) {
 	b = newBuilder()
 	write("white-space-only-row-gets-cell", b.doc(b.el("div", "table", b.el("div", "table-row", b.text(" ")), b.el("div", "table-row", b.el("div", "table-cell", b.tk())))))
 }
+
+// Probes of footnote elements (css-gcpm-3 §2).
+func TestProbeFootnotes(t *testing.T) {
+	fn := func(b *builder, d, fd string, kids ...*Node) *Node {
+		n := b.el("span", d, kids...)
+		n.Float, n.FD = "footnote", fd
+		return n
+	}
+	b := newBuilder()
+	runDoc(t, "fn-plain", b.doc(b.el("div", "", b.tk(), fn(b, "", "", b.tk()), b.tk())))
+	b = newBuilder()
+	runDoc(t, "fn-inline", b.doc(b.el("div", "", b.tk(), fn(b, "", "inline", b.tk()), fn(b, "table-cell", "compact", b.tk()), b.tk())))
+	b = newBuilder()
+	runDoc(t, "fn-none", b.doc(b.el("div", "", b.tk(), fn(b, "none", "", b.tk()), b.tk())))
+	b = newBuilder()
+	runDoc(t, "fn-list-item", b.doc(b.el("div", "", b.tk(), fn(b, "list-item", "", b.tk()), fn(b, "inline list-item", "inline", b.tk()))))
+	b = newBuilder()
+	runDoc(t, "fn-nested", b.doc(b.el("div", "", b.tk(), fn(b, "", "", b.tk(), fn(b, "", "inline", b.tk())))))
+	b = newBuilder()
+	runDoc(t, "fn-in-table", b.doc(b.el("div", "table", fn(b, "table-row", "", b.el("div", "table-cell", b.tk())), b.el("div", "table-row", b.tk()))))
+	b = newBuilder()
+	runDoc(t, "fn-in-colgroup", b.doc(b.el("div", "table", b.el("div", "table-column-group", fn(b, "", "", b.tk())), b.tk())))
+	b = newBuilder()
+	runDoc(t, "fn-in-flex", b.doc(b.el("div", "flex", fn(b, "grid", "", b.tk()), b.tk())))
+	b = newBuilder()
+	a := fn(b, "", "", b.tk())
+	a.Pos = "absolute"
+	runDoc(t, "fn-abspos", b.doc(b.el("div", "", b.tk(), a)))
+	b = newBuilder()
+	img := b.el("img", "")
+	img.Attrs = map[string]string{"src": "i.svg"}
+	img.Float = "footnote"
+	img2 := b.el("img", "")
+	img2.Attrs = map[string]string{"alt": "q99z"}
+	img2.Float, img2.FD = "footnote", "inline"
+	runDoc(t, "fn-img", b.doc(b.el("div", "", b.tk(), img, img2)))
+	b = newBuilder()
+	d := b.doc(b.tk())
+	d.Kids[0].Float = "footnote"
+	runDoc(t, "fn-body", d)
+	b = newBuilder()
+	f := fn(b, "", "", b.tk())
+	f.Before = &Pseudo{Tok: b.token(), Disp: "block"}
+	runDoc(t, "fn-before", b.doc(b.el("span", "", b.tk(), f)))
+}
